@@ -47,7 +47,47 @@ fn bytes_strategy() -> BoxedStrategy<Vec<u8>> {
 }
 
 pub fn raw_strategy() -> BoxedStrategy<FaultCase> {
-    prop_oneof![8 => (ty_strategy_ext(3, true), bytes_strategy()).prop_map(|(ty, bytes)| FaultCase::Raw { ty, bytes }), 1 => bad_utf8_strategy()].boxed()
+    prop_oneof![8 => (ty_strategy_ext(3, true), bytes_strategy()).prop_map(|(ty, bytes)| FaultCase::Raw { ty, bytes }), 1 => bad_utf8_strategy(), 1 => date_corner_strategy()].boxed()
+}
+
+/// well-formed looking dates and times at the ends of chrono's range combined with offsets that push the instant
+/// over the edge (each part is acceptable on its own)
+fn date_corner_strategy() -> BoxedStrategy<FaultCase> {
+    let a = |t: Ty| Arc::new(t);
+    let tys = vec![Ty::DtFixed, Ty::DtFixed, Ty::DtTz, Ty::DtLocal, Ty::NaiveDateTime, Ty::Option(a(Ty::DtFixed)), Ty::Vec(a(Ty::DtFixed))];
+    let years = vec![-262143i32, -262142, -262144, 262142, 262143, 262141, 0, 1970];
+    let offs = vec![0i32, 3600, -3600, 50_400, -50_400, 86_399, -86_399, 86_400, 1, -1];
+    (prop::sample::select(tys), prop::sample::select(years), prop::sample::select(vec![(1u8, 1u8), (12, 31), (2, 29), (12, 30), (1, 2)]), prop::sample::select(vec![(0u8, 0u8, 0u8), (23, 59, 59), (23, 30, 0), (0, 30, 0), (23, 59, 60)]), prop::sample::select(vec![0u32, 999_999_999, 1_999_999_999]), prop::sample::select(offs))
+        .prop_map(|(ty, y, (m, d), (h, mi, sec), nanos, off)| {
+            let mut b = Vec::new();
+            match &ty {
+                Ty::Option(_) => b.push(1),
+                Ty::Vec(_) => vmodel::refcodec::var_i32(1, &mut b),
+                _ => {}
+            }
+            vmodel::refcodec::var_u32(y as u32, &mut b);
+            b.extend_from_slice(&[m, d, h, mi, sec]);
+            vmodel::refcodec::var_u32(nanos, &mut b);
+            let inner = match &ty {
+                Ty::Option(t) | Ty::Vec(t) => (**t).clone(),
+                t => t.clone(),
+            };
+            match inner {
+                Ty::DtFixed => {
+                    b.push(0);
+                    vmodel::refcodec::var_i32(off, &mut b);
+                }
+                Ty::DtTz => {
+                    b.push(1);
+                    let z = if off >= 0 { "Pacific/Kiritimati" } else { "Pacific/Pago_Pago" };
+                    vmodel::refcodec::var_i32(z.len() as i32, &mut b);
+                    b.extend_from_slice(z.as_bytes());
+                }
+                _ => {}
+            }
+            FaultCase::Raw { ty, bytes: b }
+        })
+        .boxed()
 }
 
 /// strings that are not UTF-8, with a well-formed run of 0-80 bytes before the damage and multi-byte characters at
